@@ -81,7 +81,7 @@ Proof.
   intros Hf. unfold lexedR. first_char 61%N. cbn -[tokenize_loopS matchOrElseS].
   destruct (match_single 61 61 tEQ tUnknown p rest eq_refl) as [k Hk].
   { destruct rest; [exact I|]. cbn [follow_ok] in Hf. lia. }
-  change 61 with (Z.of_N 61). rewrite Hk. eexists _, _, _. split; [|split; [|split; [|reflexivity]]]; [reflexivity | reflexivity | unfold zlen; cbn; lia].
+  change 61 with (Z.of_N 61). rewrite Hk. eexists _, _, _. split; [|split; [|split; [|split; [|reflexivity]]]]; [reflexivity | reflexivity | cbn; lia | unfold zlen; cbn; lia].
 Qed.
 
 Lemma lexR_quoted_any body v f p rest w acc : 0 <= p -> clean 34 body = true -> json_unquote body = Some v ->
@@ -99,7 +99,7 @@ Proof.
     replace (p + 1 - 1) with p by lia.
     replace (p + 1 + zlen body + 1) with (p + zlen (34%N :: body ++ [34%N])) by (unfold zlen; cbn [length]; rewrite app_length; cbn [length]; lia).
     reflexivity. }
-  eexists _, _, _. split; [|split; [|split; [reflexivity | exact Hloop]]]; reflexivity.
+  eexists _, _, _. split; [|split; [|split; [|split; [reflexivity | exact Hloop]]]]; try reflexivity; cbn [tpos tok_pos]; lia.
 Qed.
 
 Lemma raw_clean_scan : forall n body rest, (length body <= n)%nat -> raw_clean body = true ->
@@ -131,7 +131,7 @@ Proof.
     replace (p + 1 + zlen (body ++ 39%N :: rest) - zlen rest) with (p + zlen (39%N :: body ++ [39%N]))
       by (unfold zlen; cbn [length]; rewrite !app_length; cbn [length]; lia).
     reflexivity. }
-  eexists _, _, _. split; [|split; [|split; [reflexivity | exact Hloop]]]; reflexivity.
+  eexists _, _, _. split; [|split; [|split; [|split; [reflexivity | exact Hloop]]]]; try reflexivity; cbn [tpos tok_pos]; lia.
 Qed.
 
 Lemma lexR_literal_any body f p rest w acc : 0 <= p -> clean 96 body = true ->
@@ -148,7 +148,7 @@ Proof.
     cbn [bind ap].
     replace (p + 1 + zlen body + 1) with (p + zlen (96%N :: body ++ [96%N])) by (unfold zlen; cbn [length]; rewrite app_length; cbn [length]; lia).
     reflexivity. }
-  eexists _, _, _. split; [|split; [|split; [reflexivity | exact Hloop]]]; reflexivity.
+  eexists _, _, _. split; [|split; [|split; [|split; [reflexivity | exact Hloop]]]]; try reflexivity; cbn [tpos tok_pos]; lia.
 Qed.
 
 Lemma lex_tok_text ty v text : tok_text ty v text -> forall rest f p w acc, follow_ok ty rest = true -> 0 <= p ->
@@ -173,7 +173,7 @@ Proof.
     destruct (IH f (p + 1) 1 acc ltac:(lia) ltac:(cbn [length] in Hf; lia)) as [out [Ho Hm]]. exists out. rewrite Ho. split; [|exact Hm].
     replace (p + 1 + zlen s) with (p + zlen (c :: s)) by (unfold zlen; cbn [length]; lia). reflexivity.
   - destruct f as [|f]; [lia|].
-    destruct (lex_tok_text ty v text Ht s f p w acc Hfo Hp) as [tok [p' [k [T1 [T2 [Hp' Hloop]]]]]]. rewrite Hloop.
+    destruct (lex_tok_text ty v text Ht s f p w acc Hfo Hp) as [tok [p' [k [T1 [T2 [T3 [Hp' Hloop]]]]]]]. rewrite Hloop.
     pose proof (tok_text_nonempty _ _ _ Ht) as Hne.
     assert (Hlen : (length s < f)%nat) by (rewrite app_length in Hf; destruct text; [congruence | cbn [length] in Hf; lia]).
     destruct (IH f p' k (tok :: acc) ltac:(pose proof (Zle_0_nat (length text)); unfold zlen in *; lia) Hlen) as [out [Ho Hm]].
@@ -436,7 +436,7 @@ Proof.
       destruct (IH s0 (p + 1) 1 acc out ltac:(lia) H) as [l [Ho HL]]. exists l. split.
       * rewrite Ho. replace (p + 1 + zlen s0) with (p + zlen (b :: s0)) by (unfold zlen; cbn [length]; lia). reflexivity.
       * apply Lex_ws; assumption.
-    + rewrite Hs in H. destruct (lex_tok_text ty v text Ht rest f p w acc Hfo Hp) as [tok [p' [k [T1 [T2 [Hp' Hloop]]]]]].
+    + rewrite Hs in H. destruct (lex_tok_text ty v text Ht rest f p w acc Hfo Hp) as [tok [p' [k [T1 [T2 [T3 [Hp' Hloop]]]]]]].
       rewrite Hloop in H.
       destruct (IH rest p' k (tok :: acc) out ltac:(pose proof (Zle_0_nat (length text)); unfold zlen in *; lia) H) as [l [Ho HL]].
       exists (tok :: l). split.
@@ -508,7 +508,7 @@ Proof.
   - inversion Hs; subst c s'. rewrite (lex_space b _ _ _ _ _ Hc) in H.
     destruct (IH s0 (p + 1) 1 acc er ltac:(lia) H) as [l [r [HL [Hr Hs']]]]. exists l, r. split; [apply LexTo_ws; assumption|]. split; [exact Hr|].
     replace (p + zlen (b :: s0) - zlen r) with (p + 1 + zlen s0 - zlen r) by (unfold zlen; cbn [length]; lia). exact Hs'.
-  - rewrite Hs in H. destruct (lex_tok_text ty v text Ht rest f p w acc Hfo Hp) as [tok [p' [k [T1 [T2 [Hp' Hloop]]]]]].
+  - rewrite Hs in H. destruct (lex_tok_text ty v text Ht rest f p w acc Hfo Hp) as [tok [p' [k [T1 [T2 [T3 [Hp' Hloop]]]]]]].
     rewrite Hloop in H.
     destruct (IH rest p' k (tok :: acc) er ltac:(pose proof (Zle_0_nat (length text)); unfold zlen in *; lia) H) as [l [r [HL [Hr Hs']]]].
     exists ((ty, v) :: l), r. split; [rewrite Hs; apply LexTo_tok; assumption|]. split; [exact Hr|].
@@ -540,6 +540,43 @@ Proof.
     pose proof (stepS_split r Hr) as Sp. rewrite Hstep in Sp. destruct Sp as [Hk [_ [Hl _]]].
     pose proof (Zle_0_nat (length s')). unfold zlen in *. lia.
   - inversion He; subst o. unfold zlen. rewrite app_length. lia.
+Qed.
+
+(* ---- where the tokens stand ---- *)
+(* placed e t: the token t of the text e is recorded at the offset where one of its texts
+   begins in e (for raw strings and literals: just after the opening apostrophe or backtick) *)
+Definition placed (e : bytes) (t : token) : Prop :=
+  exists pre text rest, e = pre ++ text ++ rest /\ tok_text (ttype t) (tvalue t) text /\ tpos t = tok_pos (ttype t) (zlen pre).
+
+Lemma lex_loop_placed : forall f e pre s w acc out,
+  tokenize_loopS f (AS (zlen pre) s w) acc = Ok out -> e = pre ++ s -> Forall (placed e) acc ->
+  exists l, out = rev acc ++ l ++ [Token tEOF [] (zlen e) 0] /\ Forall (placed e) l.
+Proof.
+  induction f as [|f IH]; intros e pre s w acc out H He Hacc; [discriminate|].
+  assert (Hp : 0 <= zlen pre) by (unfold zlen; lia).
+  destruct s as [|b s0].
+  - rewrite lex_eof in H. inversion H; subst. exists []. rewrite app_nil_r. cbn [rev app]. split; [reflexivity | constructor].
+  - destruct (step_cases b s0 (zlen pre) Hp) as [[c [s' [Hs Hc]]]|[[ty [v [text [rest [Hs [Ht Hfo]]]]]]|[er [_ Herr]]]].
+    + inversion Hs; subst c s'. rewrite (lex_space b _ _ _ _ _ Hc) in H.
+      apply (IH e (pre ++ [b]) s0 1 acc out); [|rewrite <- app_assoc; exact He | exact Hacc].
+      replace (zlen (pre ++ [b])) with (zlen pre + 1) by (unfold zlen; rewrite app_length; cbn [length]; lia). exact H.
+    + rewrite Hs in H. destruct (lex_tok_text ty v text Ht rest f (zlen pre) w acc Hfo Hp) as [tok [p' [k [T1 [T2 [T3 [Hp' Hloop]]]]]]].
+      rewrite Hloop in H.
+      assert (Hpl : placed e tok).
+      { exists pre, text, rest. rewrite T1, T2. split; [rewrite He, Hs; reflexivity|]. split; [exact Ht | exact T3]. }
+      destruct (IH e (pre ++ text) rest k (tok :: acc) out) as [l [Ho HL]].
+      * replace (zlen (pre ++ text)) with p' by (subst p'; unfold zlen; rewrite app_length; lia). exact H.
+      * rewrite <- app_assoc, <- Hs. exact He.
+      * constructor; assumption.
+      * exists (tok :: l). split; [rewrite Ho; cbn [rev]; rewrite <- !app_assoc; reflexivity | constructor; assumption].
+    + rewrite (Herr f w acc) in H. discriminate.
+Qed.
+
+Theorem tokens_placed e ts : tokenize e = Ok ts ->
+  exists out, ts = out ++ [Token tEOF [] (zlen e) 0] /\ Forall (placed e) out.
+Proof.
+  rewrite tokenize_view. unfold tokenizeS. intros H.
+  destruct (lex_loop_placed _ e [] e 0 [] ts H eq_refl ltac:(constructor)) as [l [Ho HL]]. exists l. split; assumption.
 Qed.
 
 (* the reading is unique *)
@@ -599,10 +636,15 @@ Proof.
 Qed.
 
 Lemma compile_error_located (e : bytes) o : parse e = Err (ESyntax o) ->
-  tokenize e = Err (ESyntax o) \/ exists ts t, tokenize e = Ok ts /\ In t ts /\ o = tpos t.
+  tokenize e = Err (ESyntax o) \/ o = zlen e \/
+  exists pre text rest ty v, e = pre ++ text ++ rest /\ tok_text ty v text /\ o = tok_pos ty (zlen pre).
 Proof.
   unfold parse. intros H. destruct (tokenize e) as [ts|er| |] eqn:Et; cbn [bind] in H; try discriminate.
-  - right. pose proof (tokenize_wf e ts Et) as Hwf. destruct (parse_error_at_token ts Hwf o H) as [t [Hin Ho]]. exists ts, t. auto.
+  - right. pose proof (tokenize_wf e ts Et) as Hwf. destruct (parse_error_at_token ts Hwf o H) as [t [Hin Ho]].
+    destruct (tokens_placed e ts Et) as [out [-> Hpl]]. apply in_app_or in Hin as [Hin|[<-|[]]].
+    + right. rewrite Forall_forall in Hpl. destruct (Hpl t Hin) as [pre [text [rest [He [Ht Hpos]]]]].
+      exists pre, text, rest, (ttype t), (tvalue t). rewrite Ho, Hpos. auto.
+    + left. exact Ho.
   - left. inversion H. reflexivity.
 Qed.
 
